@@ -99,11 +99,54 @@ type hEvent struct {
 	Nonce          string `json:"nonce,omitempty"`
 	ReadErr        string `json:"read_err,omitempty"`
 	Remote         string `json:"remote_peer"`
+	// the opener had closed its write side before sending anything: the handler read a clean EOF
+	// instead of a nonce and answered with a token naming this very invocation (eofToken)
+	EOFBeforeNonce bool `json:"eof_before_nonce,omitempty"`
+}
+
+// eofToken is what a handler answers with when the opener closed its write side without sending a nonce:
+// it names the invocation (unique per case), so that the open which reads it is paired with exactly it.
+func eofToken(seq int) (n [nonceLen]byte) {
+	n[0] = 0xE0
+	n[1] = 0xF0
+	binary.BigEndian.PutUint32(n[2:], uint32(seq))
+	copy(n[10:], "eof-tk")
+	return
 }
 
 type hlog struct {
 	mu     sync.Mutex
 	events []hEvent
+	hold   chan struct{} // handlers of half-closed streams keep their stream open until the round's audit is over
+}
+
+func (l *hlog) holdCh() chan struct{} {
+	l.mu.Lock()
+	defer l.mu.Unlock()
+	if l.hold == nil {
+		l.hold = make(chan struct{})
+	}
+	return l.hold
+}
+
+// releaseHold lets the handlers of half-closed streams finish (end of a round's open-streams audit).
+func (l *hlog) releaseHold() {
+	l.mu.Lock()
+	defer l.mu.Unlock()
+	if l.hold != nil {
+		close(l.hold)
+		l.hold = nil
+	}
+}
+
+func (l *hlog) eof(i int) [nonceLen]byte {
+	l.mu.Lock()
+	defer l.mu.Unlock()
+	e := &l.events[i]
+	tok := eofToken(e.Seq)
+	e.EOFBeforeNonce = true
+	e.Nonce = hex.EncodeToString(tok[:])
+	return tok
 }
 
 func (l *hlog) enter(hid int, proto string, remote peer.ID) int {
@@ -149,6 +192,22 @@ func (l *hlog) handler(hid int) network.StreamHandler {
 		}
 		var nonce [nonceLen]byte
 		_, err := io.ReadFull(s, nonce[:])
+		if err == io.EOF {
+			// the opener half-closed before sending anything (its first use was CloseWrite)
+			hold := l.holdCh()
+			tok := l.eof(i)
+			if _, err := s.Write(encodeReply(hid, string(s.Protocol()), tok)); err != nil {
+				s.Reset()
+				return
+			}
+			s.SetDeadline(time.Time{})
+			select {
+			case <-hold:
+			case <-time.After(2 * streamDeadline):
+			}
+			s.Close()
+			return
+		}
 		l.read(i, nonce[:], err, string(s.Protocol()))
 		if err != nil {
 			s.Reset()
@@ -183,6 +242,7 @@ type openResult struct {
 	K             int      `json:"k"`
 	Req           []string `json:"requested"`
 	ReadFirst     bool     `json:"read_before_write,omitempty"`
+	CWFirst       bool     `json:"close_write_before_anything,omitempty"`
 	GreetHID      int      `json:"greeting_handler_id"`
 	GreetProto    string   `json:"greeting_protocol"`
 	Nonce         string   `json:"nonce"`
@@ -205,8 +265,8 @@ func (o *openResult) ok() bool { return o.Stage == "" }
 // optimistic tells (by observation only, used for path counters) whether NewStream took the lazy path.
 func (o *openResult) optimistic() bool { return o.StreamType == "*basichost.streamWrapper" }
 
-func doOpen(ctx context.Context, opener host.Host, target peer.ID, k int, req []string, readFirst bool, nonce [nonceLen]byte) *openResult {
-	res := &openResult{K: k, Req: req, ReadFirst: readFirst, Nonce: hex.EncodeToString(nonce[:])}
+func doOpen(ctx context.Context, opener host.Host, target peer.ID, k int, req []string, readFirst, cwFirst bool, nonce [nonceLen]byte) *openResult {
+	res := &openResult{K: k, Req: req, ReadFirst: readFirst && !cwFirst, CWFirst: cwFirst, Nonce: hex.EncodeToString(nonce[:])}
 	st, err := opener.NewStream(ctx, target, protocol.ConvertFromStrings(req)...)
 	if err != nil {
 		res.Stage, res.Err = "newstream", err.Error()
@@ -233,6 +293,30 @@ func doOpen(ctx context.Context, opener host.Host, target peer.ID, k int, req []
 			err = fmt.Errorf("greeting carries a nonce: % x", rep.Nonce)
 		}
 		return err
+	}
+	if cwFirst {
+		// first use: the opener has nothing to send and half-closes (a "the listener speaks" protocol). The
+		// handler answers its greeting and, instead of an echo of the nonce, a token naming its invocation.
+		if err := st.CloseWrite(); err != nil {
+			return fail("closewrite", err)
+		}
+		if err := greet(); err != nil {
+			return fail("read", err)
+		}
+		rep, n, err := readReply(st)
+		res.AppBytesRead += n
+		if err != nil {
+			return fail("read-reply", err)
+		}
+		res.ProtoAtEnd = string(st.Protocol())
+		res.ReplyHID, res.ReplyProto, res.ReplyNonce = rep.HID, rep.Proto, hex.EncodeToString(rep.Nonce[:])
+		if rep.Nonce[0] != 0xE0 || rep.Nonce[1] != 0xF0 {
+			return fail("read-reply", fmt.Errorf("half-closed stream was answered with a nonce echo % x", rep.Nonce))
+		}
+		res.Nonce = res.ReplyNonce // pairing key: the invocation token
+		st.SetDeadline(time.Time{})
+		res.st = st
+		return res
 	}
 	if readFirst {
 		if err := greet(); err != nil {
